@@ -105,6 +105,8 @@ example : specOps exLevels = [.add ⟨"x", "1", true⟩, .remove "y", .add ⟨"x
 section Retry
 open MosnVerif.Model.Retry MosnVerif.Gen.RetryState MosnVerif.Gen.RouteAction
 
+def exPolicy' : Policy := { retryOn := true, numRetries := 2, codes := [503], tryTimeout := true, disable := false }
+
 /-- the budget the code computes from the configured `num_retries` (regenerated `newRetryState`) is `max 3 num_retries`:
 a configured value below 3 is raised to 3 -/
 theorem budget_floor (n : Nat) : initialBudget (n : Int) = ((max 3 n : Nat) : Int) := initialBudget_eq n
@@ -209,6 +211,20 @@ theorem nothing_after_end (p : Policy) (host0 : Option Nat) (ls : List Label) (p
         · simp at hin; subst hin
           cases o <;> simp_all [ends, retryable]
     · simp at hin; subst hin; simp [ends] at he
+
+/-- **retry_when_configured** (the converse of `retry_only_if`): whenever the outstanding attempt ends in an outcome that is retryable
+under the configured policy, budget is left, the `Retries` breaker admits, a healthy host exists and the worker has a pass left,
+the request IS retried: exactly one host selection and one new attempt on the selected host follow, and one unit of budget is used -/
+theorem retry_when_configured (p : Policy) (s : St) (l : Label) (h : Nat)
+    (hlive : s.live = true) (hrs : s.hasRS = true) (hst : s.started = false) (hrem : s.remaining ≠ 0) (hloops : s.loops ≠ 0)
+    (hret : retryable p l.o = true) (hcc : l.canCreate = true) (hh : l.host = some h)
+    (hpt : l.o = .perTry → p.tryTimeout = true) :
+    (step p s l).trace = s.trace ++ [.outcome l.o, .choose s.attempts, .attempt s.attempts h] ∧
+    (step p s l).attempts = s.attempts + 1 ∧ (step p s l).remaining = s.remaining - 1 :=
+  step_retries p s l h hlive hrs hst hrem hloops hret hcc hh hpt
+
+example : (start exPolicy' (some 0)).live = true ∧ (start exPolicy' (some 0)).hasRS = true ∧ (start exPolicy' (some 0)).started = false ∧
+    (start exPolicy' (some 0)).remaining ≠ 0 ∧ (start exPolicy' (some 0)).loops ≠ 0 ∧ retryable exPolicy' (.resp 503) = true := by decide
 
 /-- never after a response has started: once the downstream response has started (and no attempt is outstanding), whatever
 arrives — a late reset of the answered upstream stream, a timer, a connection event — changes nothing: no retry decision is
